@@ -83,9 +83,27 @@ def units(tier, seed):
     return [["hyp", i] for i in range(BOUNDS[tier]["units"])]
 
 
+@__import__("hypothesis").strategies.composite
+def case_strategy(draw):
+    src = grammar.HypSource(draw)
+    wd = grammar.gen_world(src, grammar.PROFILES["data"])
+    for c in wd["classes"]:
+        for a in c["attrs"]:
+            if a["name"] == "level" and src.chance(1, 2):
+                # the exclusive zero bound (a falsy bound is still a bound): 0 itself is the nearest non-member
+                a["type"] = ["bounded", "int", {"gt": 0}]
+                if a["default"][0] not in ("none", "attr_none"):
+                    a["default"] = [a["default"][0], 1 + src.choice(3)]
+        for name in list(c.get("redefaults") or {}):
+            if name == "level":
+                c["redefaults"][name] = 1 + src.choice(3)
+    info = grammar.world_info(wd)
+    return {"world": wd, "ops": ops.gen_history(src, info, max_ops=12, bad_rate=(35, 100))}
+
+
 def run_unit(ctx, unit):
     b = BOUNDS[ctx.tier]
-    run_given(ctx, lambda case: run_case(ctx, case), {"case": world_history("data", max_ops=12, bad_rate=(35, 100))}, b["examples"], ctx.seed * 1000 + unit[1])
+    run_given(ctx, lambda case: run_case(ctx, case), {"case": case_strategy()}, b["examples"], ctx.seed * 1000 + unit[1])
 
 
 def replay(ctx, case):
